@@ -14,6 +14,7 @@ pub mod c16;
 pub mod c17;
 pub mod c18;
 pub mod c19;
+pub mod c20;
 pub mod miri;
 
 use crate::report::{Report, Tier};
@@ -215,6 +216,18 @@ pub fn plan(id: &str) -> Option<Plan> {
             floor: 50,
             engines: vec![Engine { name: "sim", salt: 1, quick: 1500, thorough: 60_000, serial: false, run: Box::new(|s, t| c19::scenario(s, t)) }],
             extra: None,
+        },
+        "C20" => Plan {
+            id: "C20",
+            rule: "transparency/readiness: grid of 27 targets (13 layers in non-triggering configurations + 14 stacks of the composition guide) x 7 inner services (strict probe x2, probe pending 1 and 3 times, probe whose poll_ready fails, tower Buffer, tower ConcurrencyLimit), walked by the seeds, each with 2-8 sequential requests with unique payloads, ok/err outcomes and latencies; the probe's per-instance readiness flag, the request it received and the value returned are compared. listeners: 9 layers with 4 listeners each; one seeded concurrent workload is run with every one of the 16 subsets of listeners panicking and compared with the all-quiet run (outcomes, instants, per-listener event counts). engaged-readiness: the retry (C05), hedge (C12) and reconnect (C16) workloads re-run with the strict probe, judging only the readiness flag of every inner call incl. retries, hedges and reconnect attempts. non-trivial iff requests resolved / a panicking listener actually fired / an attempt after the first happened; distinct = (target, inner kind, request script) or (layer, workload) signature",
+            assumptions: BASE_ASSUMPTIONS.to_vec(),
+            floor: 50,
+            engines: vec![
+                Engine { name: "transparency-readiness", salt: 1, quick: 1512, thorough: 60_000, serial: false, run: Box::new(|s, t| c20::scenario_t(s, t)) },
+                Engine { name: "listeners", salt: 2, quick: 180, thorough: 9_000, serial: false, run: Box::new(|s, t| c20::scenario_l(s, t)) },
+                Engine { name: "engaged-readiness", salt: 3, quick: 1500, thorough: 60_000, serial: false, run: Box::new(|s, t| c20::scenario_e(s, t)) },
+            ],
+            extra: Some(|_t, _s| serde_json::json!({"targets": c20::targets(), "inner_kinds": ["strict-probe", "strict-probe", "pending-probe(1)", "pending-probe(3)", "ready-error", "buffer", "concurrency-limit"], "listener_layers": c20::LISTENER_LAYERS})),
         },
         _ => return None,
     })
